@@ -75,3 +75,27 @@ func specSubSat(cur uint64, n int) uint64 {
 //@   ensures#charged-at-most-once{C11} r.nBytes == old(r.nBytes) || r.nBytes == old(r.nBytes)+uint64(len(chunk.userData))
 //@   ensures#refused-chunks-are-not-charged{C11} result1 != nil ==> r.nBytes == old(r.nBytes)
 //@   tags C11
+
+// ---- C01: a message is handed to the reader only when every fragment from the first to the last is held ----
+
+//@ func chunkSet.isComplete
+//@   assume#no-nil-fragments forall i int :: 0 <= i && i < len(set.chunks) ==> set.chunks[i] != nil
+//@   loop 1 invariant#contiguous-so-far rangeIdx <= len(set.chunks) && (rangeIdx > 0 ==> lastTSN == set.chunks[rangeIdx-1].tsn)
+//@   loop 1 invariant#contiguous-prefix forall j int :: 1 <= j && j < rangeIdx ==> set.chunks[j].tsn == set.chunks[j-1].tsn+1
+//@   ensures#complete-means-first-to-last-without-a-hole{C01,C06} result ==> len(set.chunks) > 0 && set.chunks[0].beginningFragment &&
+//@      set.chunks[len(set.chunks)-1].endingFragment
+//@   ensures#complete-means-consecutive-tsns{C01,C06} result ==> forall j int :: 1 <= j && j < len(set.chunks) ==> set.chunks[j].tsn == set.chunks[j-1].tsn+1
+//@   modifies nothing
+//@   tags C01 C06
+
+//@ func chunkSetMID.isComplete
+//@   assume#no-nil-fragments forall i int :: 0 <= i && i < len(set.chunks) ==> set.chunks[i] != nil
+//@   loop 1 invariant#contiguous-so-far rangeIdx <= len(set.chunks) && (rangeIdx > 0 ==> lastFSN == set.chunks[rangeIdx-1].fragmentSequenceNumber) &&
+//@      set.chunks[0].fragmentSequenceNumber == 0
+//@   loop 1 invariant#contiguous-prefix forall j int :: 1 <= j && j < rangeIdx ==> set.chunks[j].fragmentSequenceNumber == set.chunks[j-1].fragmentSequenceNumber+1
+//@   ensures#complete-means-first-to-last-without-a-hole{C01,C06,C17} result ==> len(set.chunks) > 0 && set.chunks[0].beginningFragment &&
+//@      set.chunks[len(set.chunks)-1].endingFragment && set.chunks[0].fragmentSequenceNumber == 0
+//@   ensures#complete-means-consecutive-fsns{C01,C06,C17} result ==> forall j int :: 1 <= j && j < len(set.chunks) ==>
+//@      set.chunks[j].fragmentSequenceNumber == set.chunks[j-1].fragmentSequenceNumber+1
+//@   modifies nothing
+//@   tags C01 C06 C17
